@@ -401,6 +401,11 @@ def run_ob(ob, tier, keep=False):
         res['witness'] = bool(wit) and all(p[2] == 'FAILURE' for p in wit)
         failed = [p for p in props if p[2] != 'SUCCESS' and 'VP_WITNESS' not in p[1]]
         uw = [p for p in failed if 'unwinding assertion' in p[1]]
+        # forming an out-of-object pointer without dereferencing it is C-level UB that no native run
+        # can confirm: recorded as ub_notes, never as VIOLATION (a dereference has its own property)
+        ubn = [p for p in failed if 'pointer arithmetic:' in p[1] and p[2] == 'FAILURE']
+        if ubn: res['ub_notes'] = ['%s %s' % (p[0], p[1][:160]) for p in ubn[:6]]
+        failed = [p for p in failed if p not in ubn]
         real = [p for p in failed if 'unwinding assertion' not in p[1] and p[2] == 'FAILURE']
         res['failed'] = [(p[0], p[1]) for p in failed]
         if not ob.nowitness and not res['witness']:
@@ -588,6 +593,7 @@ def write_evidence(pid, tier, seed, mod, results, viol, knownhits, wall):
             unconfirmed=[dict(obligation=r['name'], why=r['detail'][:300]) for r in results if r['verdict'] == 'UNCONFIRMED'],
             broken=[dict(obligation=r['name'], why=r['detail'][:300]) for r in results if r['verdict'] == 'BROKEN'],
             known_findings=[dict(obligation=r['name'], what=k.get('what')) for r, k in knownhits],
+            ub_notes=[dict(obligation=r['name'], notes=r['ub_notes']) for r in results if r.get('ub_notes')],
             functions_encoded=funcs,
             bounds={r['name']: r.get('bound') for r in results},
             stubs=sorted({s for r in results for s in (r.get('stubs') or [])}) or meta.get('stubs', []),
